@@ -115,7 +115,14 @@ class ScanInterp(LinInterp, Interp):
             if cond is not None and not self.truth(fr, cond, depth):
                 outcome = 'loop left by its condition'
             else:
-                self.exec(fr, child(n, 'body'), depth)
+                try:
+                    self.exec(fr, child(n, 'body'), depth)
+                except _LoopExit as e:
+                    if e.kind == 'BreakStmt':
+                        raise
+                # the increment clause of a for loop belongs to the iteration (also after `continue`)
+                if n['k'] == 'ForStmt' and child(n, 'inc') is not None:
+                    self.ev(fr, child(n, 'inc'), depth)
         except _LoopExit as e:
             outcome = 'break' if e.kind == 'BreakStmt' else 'next'
         self.act('ITER', outcome, self.read_key(fr, 'this.' + m.roles['cursor']), fr.env.get(m.roles['cr']), fr.env.get(m.roles['quotes']),
